@@ -361,7 +361,8 @@ struct Printer {
   const Fmt &f;
   bool decorate;
   std::string out;
-  size_t comments = 0, quoted = 0, inner_comments = 0, blanklines = 0, multiline = 0;
+  size_t last_comment_at = std::string::npos;
+  size_t comments = 0, quoted = 0, inner_comments = 0, blanklines = 0, multiline = 0, tight_comment_values = 0, ends_in_comment = 0;
   Printer(Ctx &c_, const Fmt &f_, bool deco) : c(c_), f(f_), decorate(deco) {}
 
   // white space that is not a line break
@@ -378,6 +379,7 @@ struct Printer {
   // comment text up to (not including) the line break
   std::string comment() {
     std::string s;
+    last_comment_at = out.size();
     s += (char)f.com[c.pick(f.ncom())];
     static const char txt[] = "abc xyz 0 = { } [ ] ; \" ' # ! \\ %";
     size_t n = c.range(0, 10);
@@ -411,14 +413,16 @@ struct Printer {
     out += '\n';
   }
 
-  bool needs_quote(const std::string &v) const {
+  // (tight: the value is written directly behind the assign character; mpt_parse_data starts a comment only behind
+  // white space, so a comment character as first byte of the value is data then)
+  bool needs_quote(const std::string &v, bool tight = false) const {
     if (isspace((unsigned char)v.front()) || isspace((unsigned char)v.back())) return true;
     for (size_t i = 0; i < v.size(); i++) {
       int ch = (unsigned char)v[i];
       if (f.is_esc(ch) || ch == '\n' || (f.oend && ch == f.oend)) return true;
       // without an option-end character a comment starts at a comment character behind white space
       // (for the first character: behind the white space that may precede the value)
-      if (!f.oend && f.is_com(ch) && (i == 0 || isspace((unsigned char)v[i - 1]))) return true;
+      if (!f.oend && f.is_com(ch) && (i == 0 ? !tight : isspace((unsigned char)v[i - 1]))) return true;
     }
     return false;
   }
@@ -449,8 +453,14 @@ struct Printer {
     out += n.name;
     out += ws();
     out += (char)f.assign;
-    out += ws();
-    value_text(n.value);
+    // a value that begins with a comment character (fg=#ff0000) can be written bare directly behind the assign character
+    if (!n.value.empty() && !f.oend && f.is_com((unsigned char)n.value[0]) && !needs_quote(n.value, true) && (!decorate || c.flip())) {
+      out += n.value;
+      ++tight_comment_values;
+    } else {
+      out += ws();
+      value_text(n.value);
+    }
     if (f.oend) {
       out += ws();
       out += (char)f.oend;
@@ -486,7 +496,13 @@ struct Printer {
         out += ws();
         out += n.name;
         // the name must be followed by white space (or a comment) before the input ends
-        if (decorate && c.flip()) { out += ws(true); if (c.flip()) eol(true, false); }
+        if (decorate && c.flip()) {
+          std::string w = ws(true);
+          bool more = c.flip();
+          // a comment directly behind the name ends the name as well
+          if (more && f.ncom() && w[0] == '\t') { out += comment(); ++inner_comments; out += '\n'; }
+          else { out += w; if (more) eol(true, false); }
+        }
         else out += '\n';
       } else {
         out += ws();
@@ -503,7 +519,15 @@ struct Printer {
     if (f.family == '*') pre(t, false); else flat(t);
     gap(false);
     // the final line break is insignificant, except behind a section name of the 'x' style
-    if (decorate && f.family != 'x' && !out.empty() && out.back() == '\n' && c.chance(60)) out.pop_back();
+    // ('x': the last section name needs white space or a comment behind it - fine when the last line holds a comment or ends in a blank)
+    bool last_comment = false, droppable = f.family != 'x';
+    if (!out.empty() && out.back() == '\n') {
+      size_t ls = out.size() >= 2 ? out.rfind('\n', out.size() - 2) : std::string::npos;
+      ls = ls == std::string::npos ? 0 : ls + 1;
+      last_comment = last_comment_at != std::string::npos && last_comment_at >= ls;
+      if (f.family == 'x' && (last_comment || (out.size() >= 2 && isspace((unsigned char)out[out.size() - 2]) && out[out.size() - 2] != '\n'))) droppable = true;
+    }
+    if (decorate && droppable && !out.empty() && out.back() == '\n' && c.chance(60)) { out.pop_back(); if (last_comment) ++ends_in_comment; }
     return out;
   }
 };
@@ -524,6 +548,7 @@ struct Source {
   uint8_t *buf;
   size_t n, pos = 0, calls = 0, eof_probes = 0, probes_this_entry = 0, max_probes_per_entry = 0;
   long error_at = -1;  // index at which the stream reports a read error (-1) instead of data
+  bool error_hit = false;
   Source(const std::string &doc) : n(doc.size()) {
     buf = (uint8_t *)malloc(n ? n : 1);
     if (n) memcpy(buf, doc.data(), n);
@@ -533,7 +558,7 @@ struct Source {
   static int getc(void *arg) {
     Source *s = (Source *)arg;
     ++s->calls;
-    if (s->error_at >= 0 && s->pos >= (size_t)s->error_at) { s->probe(); return -1; }
+    if (s->error_at >= 0 && s->pos >= (size_t)s->error_at) { s->probe(); s->error_hit = true; return -1; }
     if (s->pos >= s->n) { s->probe(); return -2; }  // same convention as mpt_getchar_stdio / mpt_getchar_file
     return s->buf[s->pos++];
   }
